@@ -156,7 +156,16 @@ def translate():
 # ----------------------------------------------------------------------------------------
 # shared generators
 # ----------------------------------------------------------------------------------------
-RULE = ('exhaustive integer triples |h|,|k|,|l| <= N (N=6 quick, 12 thorough) incl. zeros and negatives for '
+RULE = ('CELLS: every crystal family from its Box constructor (generic parameters; triclinic also with one right angle) in 4 '
+        'orientations: as built (LAMMPS), every cell vector rotated by an exact rational rotation (integer quaternion, rounded '
+        'to double), Cartesian axes permuted/sign-flipped properly (exact), mirrored (left-handed: sense of the normal not '
+        'asserted); dyadic and float triclinic cells likewise; box origin non-zero in 80 % of the cells. OBJECTS: fresh, or an '
+        'object that held 1-3 other cells (unrelated, a small stretch/shear of the target, the unit cell) and was asked '
+        'everything (identifyfamily at default and non-default tolerances, is<family>, reciprocal_vects, plane normals and '
+        'vectors of the index sets tested afterwards, singly and as arrays) before each setter: vects=/origin=, set(vects), '
+        'set(avect..), set(a..gamma), set(), Box.model(model), System.box_set with and without scale. ENTRY POINTS: '
+        'atomman.tools.miller.* and crystalsystem.* given the box, and the Box methods. Then: '
+        'exhaustive integer triples |h|,|k|,|l| <= N (N=6 quick, 12 thorough) incl. zeros and negatives for '
         'plane3to4/vector3to4/plane normals/reduce_indices, quadruples with i = -(h+k) and i off by one (guard), '
         'cells: one of every crystal family from the Box constructors with generic parameters, random dyadic '
         'right-handed triclinic cells (exact regime), random float triclinic cells; all 8 centering settings plus '
@@ -164,7 +173,8 @@ RULE = ('exhaustive integer triples |h|,|k|,|l| <= N (N=6 quick, 12 thorough) in
         'p/q prefix, indices of 1-6 digits with sign, spacing variants (search: own generator + own reader of the text) '
         'plus malformed strings; arrays of quadruples with offending rows whose sums cancel; 11 leading shapes x 9 '
         'functions; family predicates on constructor cells and on '
-        'duck-typed parameter sets near the isclose boundary; distinct = distinct canonical driver line; '
+        'duck-typed parameter sets and real Box objects near the isclose boundary of the tolerances asked for (keyword, '
+        'positional, swapped keyword order); fractional three-index vectors; distinct = distinct canonical driver line; '
         'non-trivial = not the zero index vector / not an error case')
 ASSUMPTIONS = [
     'the final division by numpy.linalg.norm is a positive scalar (the model returns the unnormalised exact normal; '
@@ -173,7 +183,10 @@ ASSUMPTIONS = [
     'normals, 1e-14 relative elsewhere; dyadic cells are compared with the same bound (arithmetic exact there)',
     'numpy gcd/lcm/sign/dot/cross/apply_along_axis, str.index/split and np.fromstring(sep=" ") behave as documented',
     'Python float() numerals are modelled for the integer grammar only (sign, digits, surrounding blanks)',
-    'Box.a..gamma (sqrt/arccos) are inputs of the family model: the measured six parameters are sent exactly',
+    'Box.a..gamma (sqrt/arccos) are inputs of the family model: the measured six parameters are sent exactly '
+    '(the search checks them against the exact Gram matrix of box.vects: params:lengths-angles)',
+    'the model object is told the state the real object reports after each setter (vects, origin, a..gamma); that the '
+    'object reports what it was set to is checked separately (object:readback, entries the setter cleans to zero exempt)',
 ]
 TRUSTED = ['numpy', 'fractions.Fraction oracle in search()']
 
@@ -1115,6 +1128,17 @@ def _corr_objects(ctx, B, rng, quads_ok, atol_s):
             hist.append(st['op'])
             info = {'cells': [c2['label'] for c2 in cellseq], 'history': list(hist), 'vects': box.vects.tolist(),
                     'origin': box.origin.tolist(), 'step': st}
+            if 'vects' in st['kw']:
+                # the model's setters store what they are given: the object must report exactly the vects / origin it
+                # was set to (entries below 1e-8 of the largest are the setter's own clean-up to zero: exempt)
+                want = np.array(st['kw']['vects'], dtype=float)
+                big = np.abs(want).max()
+                keep = np.abs(want) > 1e-8 * big
+                ctx.stats.case('object:readback', (st['op'], str(st['kw'])), nontrivial=False)
+                if not (np.array_equal(box.vects[keep], want[keep]) and np.all(np.abs(box.vects[~keep]) <= 1e-8 * big)
+                        and np.array_equal(box.origin, np.array(st['kw']['origin'], dtype=float))):
+                    ctx.disagree('object:readback', f'after {st["op"]} the object reports vects {box.vects.tolist()} origin '
+                                 f'{box.origin.tolist()}, it was set to {st["kw"]}', {'op': 'object', 'step': st, 'history': hist})
             B.add('object:' + st['op'], 'bset ' + state(box), 'ok', None, _cmp_ok, info, nontrivial=False,
                   sample={'op': 'object-history', 'history': list(hist), 'cell': c['label']})
             queries(box, info, probes, tolseq)
@@ -1283,6 +1307,8 @@ def _o_normal(ctx, np, box, label, hkl, rng, quad=None, spec=None, entry='Box'):
     if det == 0:
         return
     given = hkl if quad is None else list(quad)
+    if sum(abs(x) for x in hkl) % 5 == 0:
+        given = [float(x) for x in given]       # integer indices held in a float array (what fromstring returns)
     if entry == 'Box':
         n, e = _call(box.plane_crystal_to_cartesian, given)
     else:
@@ -2170,8 +2196,12 @@ MANIFEST = {
             'lists exactly the bounded non-zero triples; every well-formed index string (optional p/q, four bracket kinds, 3 or '
             '4 integers of any size and sign, free spacing) parses to exactly the numbers it shows; an array of four-index '
             'sets is accepted iff every row passes its own guard; family predicates/identifyfamily identify every '
-            'family-constructor parameter set. The model is tied to the code by an exhaustive differential run (all index triples to the bound, '
-            'cells of every family, strings, boundary parameter sets).',
+            'family-constructor parameter set; a cell rotated by a proper rotation R has vectors and plane normals rotated by R '
+            '(normal of a rotated cubic cell = (h,k,l).R), mirrored cells flip the normal; the Box OBJECT (vects, origin, '
+            'reciprocal cache, setters) answers from its current cell only, its reciprocal cache is valid after any history, '
+            'vectors/normals/family ignore the origin and a vector is a difference of positions. The model is tied to the code by an exhaustive differential run (all index triples to the bound, '
+            'cells of every family in four orientations with non-zero origins, one model object and one real object taken '
+            'through the same setter histories, strings, boundary parameter sets).',
     'note': 'Trusted: Lean kernel + propext/Classical.choice/Quot.sound; the table translator (harness/props/c16.py); numpy '
             'primitives; norm (sqrt) and the float rounding bound of the cross product are assumptions; Python float() '
             'numerals modelled for the integer grammar only; Box.a..gamma (sqrt/arccos) are inputs of the family model.',
